@@ -62,6 +62,7 @@ type vC05World struct {
 	nonce     int
 	cancelErr string
 	inflight  string
+	running   bool // the monitored loop has started: ledger steps must not abort the run
 }
 
 var (
@@ -356,7 +357,13 @@ func (wd *vC05World) pledgeNext() bool {
 		return false
 	}
 	tx, specs, signer := wd.pledgeTx_(in)
-	wd.must(wd.settle(tx, specs, "node pledge"))
+	if err := wd.settle(tx, specs, "node pledge"); err != nil {
+		if !wd.running {
+			wd.must(err)
+		}
+		wd.r.Count("ledger_step_failed_while_running", 1)
+		return true
+	}
 	wd.pledgeTx, wd.pledgeKey = tx, signer
 	// the cancel path: Validate is expected to decide (accept or reject) without crashing
 	c, specs2 := wd.cancelTx()
@@ -376,7 +383,13 @@ func (wd *vC05World) acceptPending() {
 		return
 	}
 	acc, specs := wd.acceptTx()
-	wd.must(wd.settle(acc, specs, "node accept"))
+	if err := wd.settle(acc, specs, "node accept"); err != nil {
+		if !wd.running {
+			wd.must(err)
+		}
+		wd.r.Count("ledger_step_failed_while_running", 1)
+		return
+	}
 	wd.pledgeTx, wd.pledgeKey = nil, nil
 }
 
@@ -949,7 +962,9 @@ func (wd *vC05World) template() *vC05Cand {
 		}
 	case k < 11:
 		c.kind = "node-pledge"
-		wd.addIn(c, hostileIn(func(r *vC05Ref) bool { return unspentScript(verifAssetXIN)(r) && verifgen.UnitsOf(r.Amount).Cmp(vC05PledgeUnits) >= 0 }))
+		wd.addIn(c, hostileIn(func(r *vC05Ref) bool {
+			return unspentScript(verifAssetXIN)(r) && verifgen.UnitsOf(r.Amount).Cmp(vC05PledgeUnits) >= 0
+		}))
 		if rng.Intn(6) == 0 {
 			wd.addIn(c, hostileIn(unspentScript(verifAssetXIN)))
 		}
@@ -1009,7 +1024,9 @@ func (wd *vC05World) template() *vC05Cand {
 		k0 := owner.PrivateSpendKey
 		c.raw = &k0
 		if wd.pledgeTx != nil {
-			if src := wd.pickRef(func(r *vC05Ref) bool { return r.Hash == wd.pledgeTx.Inputs[0].Hash && r.Index == wd.pledgeTx.Inputs[0].Index }); src != nil && src.Out != nil && len(src.Out.Owners) == 1 {
+			if src := wd.pickRef(func(r *vC05Ref) bool {
+				return r.Hash == wd.pledgeTx.Inputs[0].Hash && r.Index == wd.pledgeTx.Inputs[0].Index
+			}); src != nil && src.Out != nil && len(src.Out.Owners) == 1 {
 				owner = src.Out.Owners[0]
 				c.raw = src.Out.PrivKey(0)
 			}
@@ -1483,9 +1500,8 @@ func (wd *vC05World) mutateSigs(ver *common.VersionedTransaction) string {
 	case 5:
 		if n := len(ver.SignaturesMap); n > 0 {
 			m := ver.SignaturesMap[rng.Intn(n)]
-			for k := range m {
-				m[k] = randSig()
-				break
+			if ks := vC05SortedKeys(m); len(ks) > 0 {
+				m[ks[rng.Intn(len(ks))]] = randSig()
 			}
 		}
 		return "sig-garbage"
@@ -1603,6 +1619,20 @@ func (wd *vC05World) candidate() (c *vC05Cand, enc []byte) {
 	return c, enc
 }
 
+// outcomes decided before Validate looks at the ledger: such cases are executed
+// and counted as evaluations but are not "non-trivial"
+var vC05Stateless = map[string]bool{
+	"invalid tx version":           true,
+	"invalid tx type":              true,
+	"invalid tx inputs or outputs": true,
+	"invalid input index":          true,
+	"invalid extra size":           true,
+	"invalid transaction size":     true,
+	"invalid signatures map":       true,
+	"invalid tx signature number":  true,
+	"too many references":          true,
+}
+
 func vC05ErrClass(err error) string {
 	if err == nil {
 		return "accepted"
@@ -1654,7 +1684,7 @@ func TestVerif_C05(t *testing.T) {
 		"a validated transaction can produce (script incl. threshold 0 / keyless / storage fffe40, node pledge, accept, remove, withdrawal claim, custodian update; a node-cancel transaction is " +
 		"offered too); candidates = typed near-valid templates (transfer, storage, withdrawal submit/claim, pledge/accept/cancel/remove, custodian update, deposit/mint/genesis inputs, random) " +
 		"with 0..3 struct mutations before/after signing, signature-shape mutations and byte mutations; only byte strings that decode are validated, each under fork=false and fork=true, " +
-		"with recover(); non-trivial = distinct decodable transactions validated (by payload hash + signature bytes)")
+		"with recover(); evaluations = Validate calls; non-trivial = distinct decodable transactions (by hash of the full encoding) whose validation went past the stateless pre-checks, i.e. was judged against the ledger")
 	r.Assume("snapshot timestamps are later than the genesis custodian record (epoch+1ns); earlier timestamps cannot carry a certificate")
 	r.Assume("panics of the encoder on harness-built objects that never decode are not inputs of the property and are only counted")
 	r.Assume("ledger states are storage-level (Validate + lock + WriteTransaction + WriteSnapshot); kernel-level snapshot rules (pledge amount, periods) are not applied, so the states are a superset of what consensus admits")
@@ -1680,8 +1710,10 @@ func TestVerif_C05(t *testing.T) {
 	}
 
 	n := r.N(20000, 300000)
+	wd.running = true
 	classes := map[string]int{}
 	accepted := 0
+	deep := 0
 	validations := 0
 	cases := 0
 	phase2 := false
@@ -1759,9 +1791,18 @@ func TestVerif_C05(t *testing.T) {
 				r.Count("accepted_"+class, 1)
 			}
 			if !fork {
-				r.Nontrivial(string(crypto.Blake3Hash(enc).String()))
-				if r.SampleCount() < 6 && (cases%997 == 1 || verr == nil && cases%211 == 0) {
-					r.Sample(map[string]any{"template": c.kind, "mutations": c.muts, "type": class, "bytes": len(enc), "result": cl})
+				if !vC05Stateless[cl] {
+					deep++
+					r.Nontrivial(crypto.Blake3Hash(enc).String())
+				} else {
+					r.Count("decided_by_stateless_prechecks", 1)
+				}
+				if r.SampleCount() < 6 && !vC05Stateless[cl] && (cases%997 == 1 || verr == nil && cases%211 == 0) {
+					hexTx := fmt.Sprintf("%x", enc)
+					if len(hexTx) > 600 {
+						hexTx = hexTx[:600] + "..."
+					}
+					r.Sample(map[string]any{"template": c.kind, "mutations": c.muts, "type": class, "bytes": len(enc), "snapshot_time": ts, "result": cl, "tx": hexTx})
 				}
 			}
 		}
@@ -1772,7 +1813,11 @@ func TestVerif_C05(t *testing.T) {
 	r.Note("validate_outcome_classes", classes)
 	r.Note("distinct_outcome_classes", len(classes))
 	r.Note("accepted_validations", accepted)
+	r.Note("transactions_judged_against_the_ledger", deep)
 	r.Note("ledger_outputs_known", len(wd.refs))
+	if deep < n/8 {
+		r.Inconclusive(fmt.Sprintf("only %d transactions were judged against the ledger", deep))
+	}
 	if accepted < 50 {
 		r.Inconclusive(fmt.Sprintf("only %d accepting validations: the generator does not reach the deep paths", accepted))
 	}
@@ -1811,6 +1856,15 @@ func vC05Stage(stack string) string {
 		}
 	}
 	return "unknown"
+}
+
+func vC05SortedKeys(m map[uint16]*crypto.Signature) []uint16 {
+	ks := make([]uint16, 0, len(m))
+	for k := range m {
+		ks = append(ks, k)
+	}
+	sort.Slice(ks, func(i, j int) bool { return ks[i] < ks[j] })
+	return ks
 }
 
 func vC05Short(v any) string {
